@@ -23,8 +23,7 @@ type HarnessSpec struct {
 	Params   map[string]int `json:"params"`  // tier-independent
 	Quick    map[string]int `json:"quick"`   // overrides for quick
 	Thorough map[string]int `json:"thorough"`
-	Split    string         `json:"split"`  // name of the first vsymChoice to distribute over workers
-	SplitN   map[string]int `json:"split_n"` // tier -> n
+	Split    []SplitDim     `json:"split"` // vsymChoice names fixed per job (cartesian product), to use all cores
 	Unwind   int            `json:"unwind"`
 	MaxPaths int            `json:"max_paths"`
 	MaxSecs  float64        `json:"max_secs"`
@@ -35,6 +34,11 @@ type HarnessSpec struct {
 	Solver       string `json:"solver"`
 	Note         string `json:"note"`
 	GOOS         string `json:"goos"`
+}
+
+type SplitDim struct {
+	Name string         `json:"name"`
+	N    map[string]int `json:"n"` // tier -> number of values; falls back to "quick"
 }
 
 type PropSpec struct {
@@ -277,7 +281,7 @@ func cmdRun(args []string) {
 	unwind := fs.Int("unwind", 64, "symbolic branch bound per frame")
 	maxPaths := fs.Int("maxpaths", 200000, "")
 	maxSecs := fs.Float64("maxsecs", 600, "")
-	solver := fs.String("solver", "z3", "")
+	solver := fs.String("solver", "z3-new", "")
 	panicBug := fs.Bool("panicbug", false, "")
 	params := kvFlags{}
 	fs.Var(params, "p", "param k=v")
@@ -420,7 +424,7 @@ func runWorkers(P *Program, init *State, jobs []Job, verbose int, nworkers int) 
 				}
 				kind := jobs[i].Spec.Solver
 				if kind == "" {
-					kind = "z3"
+					kind = "z3-new"
 				}
 				ex := execs[kind]
 				if ex == nil {
